@@ -22,7 +22,11 @@ var (
 	soE   = sysObj{ID: jid{"ns2", "e", "", "Secret"}, Deps: []jid{{"ns2", "d", "", "ConfigMap"}, {"", "sys:r", "rbac.authorization.k8s.io", "ClusterRole"}}}
 	soM   = sysObj{ID: jid{"ns1", "m", "", "ConfigMap"}, MutFrom: &jid{"ns1", "a", "", "ConfigMap"}}
 
-	sysCatalogue = []sysObj{soNs1, soNs2, soA, soB, soC, soD, soR, soK, soL, soS, soE, soM}
+	// namesakes: the same kind and name in the other namespace
+	soA2 = sysObj{ID: jid{"ns2", "a", "", "ConfigMap"}}
+	soD1 = sysObj{ID: jid{"ns1", "d", "", "ConfigMap"}}
+
+	sysCatalogue = []sysObj{soNs1, soNs2, soA, soB, soC, soD, soR, soK, soL, soS, soE, soM, soA2, soD1}
 )
 
 func sysInvalid(rng *proto.Rng) []sysObj {
@@ -159,6 +163,13 @@ func genSysHistory(rng *proto.Rng) sysIn {
 						run.Objs = addObj(run.Objs, soA)
 					}
 				}
+			}
+			if len(run.Objs) > 0 && rng.Chance(1, 12) {
+				// the same id twice in one apply set (a kustomize output with an overridden copy): one object is applied — the last copy —
+				// once, and it is tracked like any other
+				dup := run.Objs[rng.Intn(len(run.Objs))]
+				dup.Rev += 5
+				run.Objs = append(run.Objs, dup)
 			}
 			if rng.Chance(1, 15) {
 				// an id the inventory cannot store (its string form does not read back as the same id): the inventory task refuses
@@ -374,6 +385,28 @@ func sysHandWritten() []sysIn {
 		// ids the inventory cannot store
 		{Pre: pre, Runs: []sysRun{{Kind: "apply", Objs: []sysObj{soA, {ID: jid{"ns1", "a_b", "", "ConfigMap"}}}}, {Kind: "apply", Objs: []sysObj{soA}},
 			{Kind: "apply", Objs: []sysObj{soA, {ID: jid{"", "x__y", "rbac.authorization.k8s.io", "ClusterRole"}}}, Opts: sysOpts{StatusAll: true}}, {Kind: "destroy"}}},
+		// the same kind and name in two namespaces: every prune candidate is read from, filtered as and deleted in ITS OWN namespace;
+		// a namesake elsewhere — unmanaged, or an object of the apply set — is none of the run's business
+		{Pre: []sysObj{soNs1, soNs2, soD1, soA2}, Runs: []sysRun{{Kind: "apply", Objs: []sysObj{soA, soD}}, {Kind: "apply", Objs: []sysObj{}, Opts: sysOpts{Policy: 2}}}},
+		{Pre: []sysObj{soNs1, soNs2, soD1, soA2}, Runs: []sysRun{{Kind: "apply", Objs: []sysObj{soA, soD}}, {Kind: "destroy", Opts: sysOpts{Policy: 1}}}},
+		{Pre: []sysObj{soNs1, soNs2, soD1, soA2}, Runs: []sysRun{{Kind: "apply", Objs: []sysObj{soA, soD, soB}}, {Kind: "apply", Objs: []sysObj{soB, soA}, Opts: sysOpts{Policy: 2}}, {Kind: "destroy"}}},
+		{Pre: pre, Runs: []sysRun{{Kind: "apply", Objs: []sysObj{soA, soB, soA2, soD, soD1}}, {Kind: "apply", Objs: []sysObj{soA, soD}}, {Kind: "apply", Objs: []sysObj{soA2}}}},
+		{Pre: pre, Runs: []sysRun{{Kind: "apply", Objs: []sysObj{soA, soA2}}, {Kind: "destroy"}}},
+		// a detach (keep / detach annotation) that was carried out — owning annotation removed — in a run whose final inventory write (or
+		// whose destroy's inventory delete) failed: the next clean run finds the object tracked, annotated keep and ALREADY unowned; it
+		// is still detached (dropped from the inventory), and a destroy still completes
+		{Pre: pre, Runs: []sysRun{{Kind: "apply", Objs: []sysObj{soA, soK}}, {Kind: "apply", Objs: []sysObj{{ID: soA.ID, Rev: 1}}, FailMut: []int{2}}, {Kind: "apply", Objs: []sysObj{{ID: soA.ID, Rev: 1}}}, {Kind: "destroy"}}},
+		{Pre: pre, Runs: []sysRun{{Kind: "apply", Objs: []sysObj{soA, soK}}, {Kind: "apply", Objs: []sysObj{{ID: soA.ID, Rev: 1}}, FailMut: []int{3}}, {Kind: "apply", Objs: []sysObj{{ID: soA.ID, Rev: 1}}}, {Kind: "destroy"}}},
+		{Pre: pre, Runs: []sysRun{{Kind: "apply", Objs: []sysObj{soA, soL}}, {Kind: "apply", Objs: []sysObj{soA}, FailMut: []int{1}}, {Kind: "apply", Objs: []sysObj{soA}}, {Kind: "destroy"}}},
+		{Pre: pre, Runs: []sysRun{{Kind: "apply", Objs: []sysObj{soA, soL}}, {Kind: "apply", Objs: []sysObj{soA}, FailMut: []int{2}}, {Kind: "apply", Objs: []sysObj{soA}}, {Kind: "destroy"}}},
+		{Pre: pre, Runs: []sysRun{{Kind: "apply", Objs: []sysObj{soA, soK}}, {Kind: "destroy", FailMut: []int{2}}, {Kind: "destroy"}}},
+		{Pre: pre, Runs: []sysRun{{Kind: "apply", Objs: []sysObj{soA, soK}}, {Kind: "destroy", FailMut: []int{1}}, {Kind: "destroy"}}},
+		{Pre: pre, Runs: []sysRun{{Kind: "apply", Objs: []sysObj{soK, soL}}, {Kind: "destroy", FailMut: []int{2}}, {Kind: "destroy", FailMut: []int{0}}, {Kind: "destroy"}}},
+		// the same id twice in an apply set: applied once (the last copy); a rejected apply of it is ONE failed apply of a new object
+		{Pre: pre, Runs: []sysRun{{Kind: "apply", Objs: []sysObj{soA, {ID: soA.ID, Rev: 1}}}, {Kind: "destroy"}}},
+		{Pre: pre, Runs: []sysRun{{Kind: "apply", Objs: []sysObj{soA, soD, {ID: soA.ID, Rev: 1}}, FailMut: []int{2}}, {Kind: "destroy"}}},
+		{Pre: pre, Runs: []sysRun{{Kind: "apply", Objs: []sysObj{soD, soA, {ID: soA.ID, Rev: 1}}, FailMut: []int{3}}, {Kind: "destroy"}}},
+		{Pre: pre, Runs: []sysRun{{Kind: "apply", Objs: []sysObj{soA, {ID: soA.ID, Rev: 1}, soB}, FailMut: []int{2}, FailCode: 422}, {Kind: "apply", Objs: []sysObj{soA, soB}}, {Kind: "destroy"}}},
 		// boundary: empty apply sets (nothing tracked yet; everything tracked pruned), destroy without an inventory
 		{Pre: pre, Runs: []sysRun{{Kind: "apply", Objs: []sysObj{}}, {Kind: "apply", Objs: []sysObj{soA}}, {Kind: "apply", Objs: []sysObj{}}, {Kind: "destroy"}}},
 		{Pre: pre, Runs: []sysRun{{Kind: "destroy"}}},
@@ -436,7 +469,58 @@ func genSyncRace(out *proto.Out, _ *proto.Rng, tier string) {
 	}
 }
 
+// domain pre-cancel: dry-runs (the library then uses its own BlindStatusWatcher) started under a context that is ALREADY cancelled.
+// The runner finds the cancellation and the watcher's sync event ready together, and after every task the cancellation and the
+// task's result: how many tasks complete before it acts on the cancellation is Go's choice.  Whatever it is, the stream is a
+// task-boundary prefix of the un-cancelled run followed by the context error (or nothing was started, or — the runner never
+// looked — the complete run), the channel closes, nothing is changed.
+func preCancelHistories() []sysIn {
+	pre := []sysObj{soNs1, soNs2}
+	var hs []sysIn
+	for _, dry := range []int{1, 2} {
+		pc := func(kind string, objs []sysObj, o sysOpts) sysRun {
+			o.Dry = dry
+			return sysRun{Kind: kind, Objs: objs, Opts: o, Cancel: "pre"}
+		}
+		hs = append(hs,
+			sysIn{Pre: pre, Runs: []sysRun{pc("apply", []sysObj{soA, soB}, sysOpts{})}},
+			sysIn{Pre: pre, Runs: []sysRun{pc("apply", []sysObj{}, sysOpts{})}},
+			sysIn{Pre: pre, Runs: []sysRun{{Kind: "apply", Objs: []sysObj{soA, soB, soD}}, pc("apply", []sysObj{soA}, sysOpts{SSA: true})}},
+			sysIn{Pre: pre, Runs: []sysRun{{Kind: "apply", Objs: []sysObj{soA, soD}}, pc("destroy", nil, sysOpts{})}},
+			sysIn{Pre: pre, Runs: []sysRun{pc("destroy", nil, sysOpts{})}},
+			sysIn{Pre: pre, Runs: []sysRun{{Kind: "apply", Objs: []sysObj{soA, soK}}, pc("apply", []sysObj{soA, soFooInvalid}, sysOpts{SkipInvalid: true})}},
+		)
+	}
+	return hs
+}
+
+var soFooInvalid = sysObj{ID: jid{"ns1", "foo", "example.com", "Foo"}}
+
+func genPreCancel(out *proto.Out, _ *proto.Rng, tier string) {
+	reps := 5
+	if tier == "thorough" {
+		reps = 40
+	}
+	var cases []sysIn
+	for _, h := range preCancelHistories() {
+		for k := 0; k < reps; k++ {
+			cases = append(cases, h)
+		}
+	}
+	res := runSysIsolated(cases, 16)
+	for i := range cases {
+		out.Emit("pre-cancel", cases[i], res[i])
+	}
+}
+
 func init() {
+	register("pre-cancel", domain{gen: genPreCancel, run: func(raw json.RawMessage) (any, error) {
+		var in sysIn
+		if err := json.Unmarshal(raw, &in); err != nil {
+			return nil, err
+		}
+		return runSysIsolated([]sysIn{in}, 1)[0], nil
+	}})
 	register("sync-race", domain{gen: genSyncRace, run: func(raw json.RawMessage) (any, error) {
 		var in sysIn
 		if err := json.Unmarshal(raw, &in); err != nil {
